@@ -5,7 +5,10 @@ package ha
 // Verification seams (compiled only with -tags verif).  Thin exported wrappers around the
 // unexported message-handling entry points of the HA syncer; no logic of their own.
 
-import "net/http"
+import (
+	"net/http"
+	"time"
+)
 
 // HandleSSEDataForVerif feeds one SSE data payload to the standby exactly as connectToStream does.
 func (s *HASyncer) HandleSSEDataForVerif(data []byte) error { return s.handleSSEData(data) }
@@ -47,4 +50,56 @@ func (s *HASyncer) BroadcastOneForVerif() (*SyncMessage, bool) {
 	default:
 		return nil, false
 	}
+}
+
+// ----- failover controller / health monitor (C14) -----
+
+// SetPartnerHealthyForVerif moves the monitor's Healthy flag the way recordFailure / recordSuccess do when
+// a threshold is crossed, and notifies the registered handlers with the corresponding event. Setting the
+// flag to its current value does nothing (the monitor only reports transitions).
+func (m *HealthMonitor) SetPartnerHealthyForVerif(healthy bool) {
+	m.mu.Lock()
+	if m.health.Healthy == healthy {
+		m.mu.Unlock()
+		return
+	}
+	m.health.Healthy = healthy
+	t := HealthEventPartnerDown
+	if healthy {
+		t = HealthEventPartnerUp
+	}
+	m.mu.Unlock()
+	m.InjectHealthEventForVerif(t)
+}
+
+// InjectHealthEventForVerif delivers a health event to the registered handlers without a health probe.
+func (m *HealthMonitor) InjectHealthEventForVerif(t HealthEventType) {
+	m.mu.Lock()
+	handlers := make([]HealthEventHandler, len(m.handlers))
+	copy(handlers, m.handlers)
+	health := m.health
+	m.mu.Unlock()
+	event := HealthEvent{Type: t, Timestamp: time.Now(), Health: health}
+	for _, handler := range handlers {
+		handler(event)
+	}
+}
+
+// StaleFailoverTimerForVerif returns the function the currently armed failover timer runs when it fires.
+// Calling it after the timer was stopped reproduces a time.AfterFunc callback that had already fired and
+// was waiting for the controller's mutex when Stop() was called.
+func (c *FailoverController) StaleFailoverTimerForVerif() func() {
+	return func() { c.executeFailover("partner health check failure") }
+}
+
+// StaleFailbackTimerForVerif is the failback counterpart of StaleFailoverTimerForVerif.
+func (c *FailoverController) StaleFailbackTimerForVerif() func() {
+	return func() { c.executeFailback("partner recovered") }
+}
+
+// DeadlinesForVerif returns the expiry times of the most recently armed failover and failback timers.
+func (c *FailoverController) DeadlinesForVerif() (failover, failback time.Time) {
+	c.mu.RLock()
+	defer c.mu.RUnlock()
+	return c.failoverTime, c.failbackTime
 }
